@@ -222,6 +222,13 @@ class DTCWTInverse(nn.Module):
         low, highs = coeffs
         J = len(highs)
         mode = mode_to_int(self.mode)
+        # None, the scalar placeholder the forward transform returns for
+        # skipped levels and an empty tensor (torch.tensor([])) all stand for
+        # zeros
+        if low is not None and low.dim() <= 1:
+            low = None
+        highs = [None if (s is not None and s.dim() <= 1) else s
+                 for s in highs]
         _, _, h_dim, w_dim = get_dimensions6(
             self.o_dim, self.ri_dim)
         for j, s in zip(range(J-1, 0, -1), highs[1:][::-1]):
@@ -233,19 +240,21 @@ class DTCWTInverse(nn.Module):
                 assert s.shape[self.ri_dim] == 2, "Inputs must be complex " \
                     "with real and imaginary parts in the ri dimension"
                 # Ensure the low and highpass are the right size
-                r, c = low.shape[2:]
-                r1, c1 = s.shape[h_dim], s.shape[w_dim]
-                _vp('DTCWTInverse.crop', level=j+1, rows=r, cols=c, hp_rows=r1, hp_cols=c1, crop_rows=r != r1 * 2, crop_cols=c != c1 * 2)
-                if r != r1 * 2:
-                    low = low[:,:,1:-1]
-                if c != c1 * 2:
-                    low = low[:,:,:,1:-1]
+                if low is not None:
+                    r, c = low.shape[2:]
+                    r1, c1 = s.shape[h_dim], s.shape[w_dim]
+                    _vp('DTCWTInverse.crop', level=j+1, rows=r, cols=c, hp_rows=r1, hp_cols=c1, crop_rows=r != r1 * 2, crop_cols=c != c1 * 2)
+                    if r != r1 * 2:
+                        low = low[:,:,1:-1]
+                    if c != c1 * 2:
+                        low = low[:,:,:,1:-1]
 
             low = INV_J2PLUS.apply(low, s, self.g0a, self.g1a, self.g0b,
                                    self.g1b, self.o_dim, self.ri_dim, mode)
 
         # Ensure the low and highpass are the right size
-        if highs[0] is not None and highs[0].shape != torch.Size([]):
+        if highs[0] is not None and highs[0].shape != torch.Size([]) \
+                and low is not None:
             r, c = low.shape[2:]
             r1, c1 = highs[0].shape[h_dim], highs[0].shape[w_dim]
             _vp('DTCWTInverse.crop', level=1, rows=r, cols=c, hp_rows=r1, hp_cols=c1, crop_rows=r != r1 * 2, crop_cols=c != c1 * 2)
